@@ -48,7 +48,9 @@ def trim_weights(
         weights_trimmed = weights[mask]
         weights_trimmed /= np.sum(weights_trimmed)
         ess_trimmed = 1.0 / np.sum(weights_trimmed**2.0)
-        if ess_trimmed / ess_total >= ess:
+        # i == 0 keeps every sample: nothing is left to relax (the ratio can
+        # fall one ulp short of 1 there, after the second normalisation)
+        if ess_trimmed / ess_total >= ess or i == 0:
             break
         i -= 1
 
